@@ -57,6 +57,29 @@ def validate(sc, R, files, module, cfg, what, parts):
     return val
 
 
+PEER_FAULT_WHAT = "a peer/data fault had an outcome the protocol model does not allow (process died, hang, lost or invented output)"
+
+
+def peer_fault_stage(sc, tier, seed):
+    """The peer-fault stage on its own, for checks that share it (C05: "every message from a UDF process ... an error for
+    that peer at most; the process and all other tasks are unaffected").
+
+    Runs driver `c19fault` (one child process per scenario: the misbehaving-peer alphabet incl. wrong-kind / duplicate /
+    unsolicited responses, data faults, Stop racing with the death of the peer, the task-snapshotter path) against the
+    tree under test and validates the recorded trace `fault.ndjson` with spec/UDFProto/UDFProtoTraceMC.tla under
+    UDFProtoFaultTrace.cfg.  No Result handling: returns (meta, val); val is what V.validate_traces returns
+    (accepted, rejections [(file, line, res)], kf, states) - hand it to R.handle_validation(val, what) of the calling
+    check.  A child that dies / a Stop that hangs is a ProcessDied / StopHang line that no action explains."""
+    V.build_harness()
+    out, meta = V.run_driver(sc, "c19fault", tier, seed, timeout=2400)
+    fs = []
+    for f in meta["trace_files"]:
+        n = sum(1 for _ in open(f))
+        fs += split_by_reset(f, min(8, max(1, n // 150)), sc)
+    val = V.validate_traces(sc, MOD, "UDFProtoTraceMC.tla", "UDFProtoFaultTrace.cfg", fs, parallel=8, timeout=1500)
+    return meta, val
+
+
 def run(sc, tier, seed):
     R = V.Result("C19", tier, seed)
     V.build_harness()
@@ -66,15 +89,16 @@ def run(sc, tier, seed):
     R.add_model(V.model_check(sc, MOD, "UDFFramingMC.tla", "UDFFraming_%s.cfg" % tier, workers=8, timeout=1500))
     # message level, well-behaved peer: echo identity, wire identity, snapshot/restore, stop drains, no deadlock under
     # 1-slot pipes with keepalive and requests competing with data
-    cfgs = ["UDFProto_quick.cfg", "UDFProto_bad_quick.cfg", "UDFProto_stray_quick.cfg", "UDFProto_faults_quick.cfg",
+    cfgs = ["UDFProto_quick.cfg", "UDFProto_bad_quick.cfg", "UDFProto_stray_quick.cfg", "UDFProto_faults_quick.cfg", "UDFProto_reqfaults_quick.cfg",
             "UDFProto_abort_quick.cfg", "UDFProto_abortcall_quick.cfg"]
     if thorough:
-        cfgs += ["UDFProto_thorough.cfg", "UDFProto_batches_thorough.cfg", "UDFProto_faults_thorough.cfg",
+        cfgs += ["UDFProto_thorough.cfg", "UDFProto_batches_thorough.cfg", "UDFProto_faults_thorough.cfg", "UDFProto_reqfaults_thorough.cfg",
                  "UDFProto_abort_thorough.cfg", "UDFProto_abortoa_thorough.cfg"]
     for cfg in cfgs:
         R.add_model(V.model_check(sc, MOD, "UDFProtoMC.tla", cfg, workers=8, timeout=1500))
     # the code before the fixes, as observations: the same model with the switches off must show the defects
-    for cfg, exp in (("UDFProto_orig.cfg", "NoProcessCrash"), ("UDFProto_origbad.cfg", "NoProcessCrash"), ("UDFProto_hang.cfg", "Deadlock reached")):
+    for cfg, exp in (("UDFProto_orig.cfg", "NoProcessCrash"), ("UDFProto_origbad.cfg", "NoProcessCrash"), ("UDFProto_hang.cfg", "Deadlock reached"),
+                     ("UDFProto_hangreq.cfg", "Deadlock reached")):
         res = V.model_check(sc, MOD, "UDFProtoMC.tla", cfg, workers=2, timeout=300, expect_violation={exp})
         if res["violated"] != exp:
             raise V.Broken("model %s no longer shows the defect it is there to show (%s): the fault alphabet of the configuration is dead" % (cfg, exp))
@@ -85,8 +109,7 @@ def run(sc, tier, seed):
         ("c19frame", "UDFFramingTrace.tla", "UDFFramingTrace.cfg",
          "agent.ReadMessage did not return what the stream contains under this fragmentation"),
         # peer faults / data faults, one child process each (ties into C05)
-        ("c19fault", "UDFProtoTraceMC.tla", "UDFProtoFaultTrace.cfg",
-         "a peer/data fault had an outcome the protocol model does not allow (process died, hang, lost or invented output)"),
+        ("c19fault", "UDFProtoTraceMC.tla", "UDFProtoFaultTrace.cfg", PEER_FAULT_WHAT),
         # B1/B3, message level: sessions on the real udf.Server
         ("c19", "UDFProtoTraceMC.tla", "UDFProtoTrace.cfg",
          "session on the real udf.Server not explained by the protocol model (echo / wire / snapshot / stop)"),
@@ -99,6 +122,12 @@ def run(sc, tier, seed):
     ]
     for drv, module, cfg, what in stages:
         try:
+            if drv == "c19fault":
+                meta, val = peer_fault_stage(sc, tier, seed)
+                R.add_meta(meta)
+                R.states += val["states"]
+                R.handle_validation(val, what)
+                continue
             out, meta = V.run_driver(sc, drv, tier, seed, timeout=2400)
             R.add_meta(meta)
             # the c19 driver also records the complete agent -> server byte stream of every session (wire.ndjson):
